@@ -1,0 +1,19 @@
+//go:build verif
+
+package scion
+
+// Hook for the C15 correspondence harness: one refresh of a Pather's path table (the unexported
+// update function, exactly as StartPather and its refresh goroutine call it) against a given
+// daemon connector. Add-only; compiled only with the build tag "verif".
+
+import (
+	"context"
+
+	"github.com/scionproto/scion/pkg/addr"
+	"github.com/scionproto/scion/pkg/daemon"
+)
+
+// VerifC15Update runs update(ctx, p, dc, dstIAs).
+func VerifC15Update(ctx context.Context, p *Pather, dc daemon.Connector, dstIAs []addr.IA) {
+	update(ctx, p, dc, dstIAs)
+}
